@@ -97,6 +97,19 @@ def run(tier, replay=None):
                 if v["v"] == "bad":
                     chk.violation("run:%s:%s" % (v["id"] if not v["id"].startswith("rand") else "random-program", v["why"]),
                                   "processor+memory run %s diverges from the ISA at clock %d: %s" % (v["id"], v["at"], v["why"]), {"run.ndjson": src[i] + "\n"})
+        # the longest program at hand on the RTL: the xhexb compiler (tests/x/xhexb.x compiled by xcmp) compiling a source - a million
+        # clocks and more, cut into segments judged independently (K clocks from a recorded state = K instructions of HexISA)
+        import seglib
+        xb = os.path.join(d, "xhexb.bin")
+        vlib.sh([os.path.join(corpus.tools(), "xcmp"), os.path.join(vlib.REPO, "tests/x/xhexb.x"), "-o", xb], check=True, timeout=300)
+        boots = [("rtl-boot-skip", b"proc main() is skip\n", 80000)]
+        if tier != "quick":
+            boots.append(("rtl-boot-hello", open(os.path.join(vlib.REPO, "tests/x/hello_prints.x"), "rb").read(), 250000))
+        for tag, src, K in boots:
+            oks, st, end = seglib.run(chk, d, xb, src, K, tag, rtl_exe=sexe, who="processor+memory")
+            clocks += st
+            chk.cov.setdefault("bootstrap_runs", {})[tag] = {"clocks": end['steps'], "segments_ok": oks, "bytes_written": sum(len(h) // 2 for _, h in end['files'])}
+            chk.vacuity(end['steps'] < 1000000, "bootstrap run on the RTL too short (%d clocks)" % end['steps'])
         chk.set("runs", dict(cnt)); chk.set("run_clocks_validated", clocks); chk.set("corpus_programs", [p[0] for p in progs])
         nval = tot["ok"] + cnt["ok"] + cnt["ok-undef"] + cnt["ok-outside"]
         chk.set("traces_validated_against_impl", nval); chk.set("evaluations", tot["n"] + sum(cnt.values())); chk.set("distinct_nontrivial", nval)
